@@ -3,12 +3,13 @@ package props
 import (
 	"fmt"
 
+	"verif/internal/refmodel"
 	"verif/internal/space"
 )
 
 func init() {
 	register("C06", "exploration", c06)
-	ruleText["C06"] = "every subset of {minLength, maxLength, pattern} over a small value grid x {required, optional, nullable-optional, nullable-required, named definition, root (+ nested, allOf/anyOf branch in thorough)} is generated, compiled and fed strings of length min-1, min, max, max+1 in 1-, 2-, 3- and 4-byte characters, matching and non-matching, absent and null; " +
+	ruleText["C06"] = "every subset of {minLength, maxLength, pattern} over a small value grid x {required, optional, nullable-optional, nullable-required, named definition, root, optional with a default (+ nested, allOf/anyOf branch in thorough)} is generated, compiled and fed strings of length min-1, min, max, max+1 in 1-, 2-, 3- and 4-byte characters, matching and non-matching, absent and null; " +
 		"verdicts compared with the reference model (length in characters); non-trivial = differs from the base document; distinct = (source hash, document)"
 }
 
@@ -59,6 +60,18 @@ func c06Cases(level int) []SCase {
 					Schema: J{"type": "object", "properties": J{"d": J{"$ref": "#/$defs/D"}, "do": J{"$ref": "#/$defs/D"}, "da": J{"type": "array", "items": J{"$ref": "#/$defs/D"}}, "dn": J{"$ref": "#/$defs/DN"}},
 						"required": A{"d"}, "$defs": J{"D": l, "DN": nl}}})
 				out = append(out, SCase{ID: "C06/root/" + name, Cfg: baseCfg(), Axes: ax("root"), Schema: space.Clone(l)})
+				// the same string with a default (a valid value chosen by the reference model): the field then is not a pointer, and an
+				// absent or null value still must not be checked
+				if lm, err := refmodel.New(map[string]string{"s.json": space.Text(l)}, "s.json"); err == nil {
+					if ds := lm.Docs(1); len(ds) > 0 && lm.Valid(ds[0].V) == refmodel.Accept {
+						if dv, ok := ds[0].V.(string); ok {
+							ld := space.Clone(l)
+							ld["default"] = dv
+							out = append(out, SCase{ID: "C06/default/" + name, Cfg: baseCfg(), Axes: ax("default"),
+								Schema: J{"type": "object", "properties": J{"k": J{"type": "integer"}, "od": ld}}})
+						}
+					}
+				}
 				if level >= 1 {
 					out = append(out, SCase{ID: "C06/nested/" + name, Cfg: baseCfg(), Axes: ax("nested"),
 						Schema: J{"type": "object", "properties": J{"n": J{"type": "object", "properties": J{"r": l, "o": l}, "required": A{"r"}}}, "required": A{"n"}}})
